@@ -49,7 +49,18 @@ Lemma two_theta_eval a1 a2 a3 sa c1 c2 c3 sc :
   two_theta O (VVar O (EVec O a1 a2 a3) (mkU O sa d_m) DVec3) (VVar O (EVec O c1 c2 c3) (mkU O sc d_m) DVec3)
   = VVar O (ENum O (kahan (mkV a1 a2 a3) (mkV c1 c2 c3)) None) (mkU O (1 * 1) d_rad) DF64.
 Proof using.
-  sem_cbv0. first [ reflexivity | f_equal; [f_equal; unfold Rdiv; ring_simplify; reflexivity | f_equal; ring] ].
+  sem_cbv0.
+  (* normally both sides are the same expression; after a harmless re-arrangement of the source
+     (operand order, `2 * res`) compare under atan2 / sqrt by ring *)
+  first [ reflexivity
+        | repeat match goal with
+                 | |- VVar _ _ _ _ = VVar _ _ _ _ => f_equal
+                 | |- ENum _ _ _ = ENum _ _ _ => f_equal
+                 | |- mkU _ _ _ = mkU _ _ _ => f_equal
+                 end;
+          match goal with |- @eq _ ?a ?b => change (@eq R a b) end;
+          first [ reflexivity | ring
+                | try rewrite (Rmult_comm 2); apply (f_equal2 Rmult); [apply (f_equal2 atan2); apply (f_equal sqrt); ring | reflexivity] ] ].
 Qed.
 
 Lemma bauv_eval a1 a2 a3 sa g1 g2 g3 sg :
